@@ -9,12 +9,16 @@ PROP = {'lean_props': ['Comrak.Props.C01'],
                        'shortestUnused_is_unused_partial',
                        'shortestUnused_old_diverges',
                        'spx_consume_total',
-                       'spx_consume_counterexample',
+                       'spx_consume_verbatim',
+                       'spx_consume_former_counterexample',
                        'entity_codepoint_no_overflow',
                        'hexval_no_underflow',
                        'normalizeCode_nonempty',
                        'chop_hashtags_total',
-                       'remove_trailing_blank_lines_total'],
+                       'remove_trailing_blank_lines_total',
+                       'html_no_panic_of_shape',
+                       'xml_no_panic_of_shape',
+                       'cm_no_panic_of_shape'],
  'extra_profiles': ['dev'],
  'timeout_quick': 900,
  'timeout_thorough': 3000,
@@ -35,8 +39,11 @@ TEXT = {'text': 'Proof (partial: per mechanism). Each function named by the anch
          "Spx::consume (total and precondition-preserving when every queued segment is verbatim and enough bytes are queued; a concrete "
          'counterexample shows the callers do not always establish that), the code-point arithmetic of entity::unescape (no u32 overflow for any '
          'digit count, no underflow in the hex-digit formula), normalize_code (non-empty result on non-empty input, so format_code may read '
-         'literal[0]), chop_trailing_hashtags and remove_trailing_blank_lines (total under their callers\' guards, counterexamples without). Tie '
-         'to the code: every model is compared with the real function through cfg(comrak_verif) hooks on exhaustive short and random boundary '
+         'literal[0]), chop_trailing_hashtags and remove_trailing_blank_lines (total under their callers\' guards, counterexamples without). '
+         'Formatter sites whose safety depends on where a node sits: on every tree that satisfies the C04 shape predicate and is rooted at a document, none of the context-dependent '
+         'unwrap()/panic!/index sites of html.rs, xml.rs and cm.rs (enumerated as the predicates noPanicT, xmlNoPanicT, cmNoPanicT) can fire '
+         '(html_no_panic_of_shape, xml_no_panic_of_shape, cm_no_panic_of_shape; proved in C04 by carrying the table geometry from the table node '
+         'through its rows to their cells; that parsed trees satisfy the shape predicate is decided by C04\'s search). Tie to the code: every model is compared with the real function through cfg(comrak_verif) hooks on exhaustive short and random boundary '
          'inputs (model none <-> real panic). Search (always full volume, release and debug-assertion builds): isolated worker processes with a '
          'wall-clock watchdog run parse + HTML + CommonMark + XML under random option vectors on random/mutated/corpus documents, every '
          'backtick run length 1..100 in code spans, and deep-nesting / long-run families up to 10^5 (quick) / 10^6 (thorough) repetitions; the '
